@@ -501,6 +501,12 @@ def run(ctx):
         out = os.path.join(ctx.work, "report%03d.ndjson" % gi)
         p = vlib.sh([bins["maypanicrun"], "-dir", progs[gi]["dir"], "-prog", str(gi + 1), "-out", out, "--"] +
                     EXCLUDE_ARGS + ["."], env=dict(vlib.goenv(), GOMAXPROCS="2"), check=False, timeout=1800)
+        if p.returncode != 0 and re.search(r"^(fatal error|panic): ", p.stdout, re.M) and \
+                re.search(r"ar-go-tools/(analysis|cmd|internal)/", p.stdout):
+            # the process died inside the tool (unrecoverable: stack overflow, concurrent map access, ...)
+            m_ = re.search(r"^(fatal error|panic): .*$", p.stdout, re.M)
+            return {"prog": gi + 1, "ok": False, "crash": m_.group(0) + "\n" + p.stdout[-3000:], "err": "",
+                    "findings": [], "raw": 0}
         if p.returncode != 0 or not os.path.exists(out):
             raise Inconclusive("maypanicrun failed on %s:\n%s" % (progs[gi]["dir"], p.stdout[-3000:]))
         recs = vlib.read_ndjson(out)
